@@ -2,6 +2,8 @@ package main
 
 import (
 	"fmt"
+	"io"
+	"net"
 	"net/http"
 	"net/http/httptest"
 	"strings"
@@ -150,9 +152,48 @@ func TestVerifC12Free(t *testing.T) {
 			fb.Close()
 		}
 	}
+	// a second, small workload: size_limit as the only plugin (so that it wraps the connection's
+	// own response writer), uploads without declared length that cross the limit after a pause,
+	// and a backend that answers before it has read the body: the transport's goroutine is then
+	// still reading the upload while the answer is on its way out
+	if shard == 0 {
+		fb := wire.NewFaultBackend()
+		fb.SetMode("eager")
+		cfg := baseConfig("round_robin", fb.URL())
+		cfg.Plugins = config.PluginsConfig{Enabled: true, Chain: []config.PluginConfig{sizeLimitCfg(8192, 1<<20)}}
+		h, err := startHelios(cfg)
+		if err != nil {
+			t.Fatal(err)
+		}
+		var wg sync.WaitGroup
+		for g := 0; g < 6; g++ {
+			wg.Add(1)
+			go func(g int) {
+				defer wg.Done()
+				for i := 0; i < 3; i++ {
+					c, err := net.DialTimeout("tcp", h.addr, 5*time.Second)
+					if err != nil {
+						return
+					}
+					c.SetDeadline(time.Now().Add(10 * time.Second))
+					fmt.Fprintf(c, "POST /up HTTP/1.1\r\nHost: x.test\r\nTransfer-Encoding: chunked\r\n\r\n1388\r\n%s\r\n", strings.Repeat("u", 5000))
+					time.Sleep(time.Duration(150+20*g) * time.Millisecond)
+					fmt.Fprintf(c, "1388\r\n%s\r\n0\r\n\r\n", strings.Repeat("v", 5000))
+					io.Copy(io.Discard, c)
+					c.Close()
+					mu.Lock()
+					evals++
+					mu.Unlock()
+				}
+			}(g)
+		}
+		wg.Wait()
+		h.stop()
+		fb.Close()
+	}
 	nr := vh.CollectRaces(func(key, what string) { r.Violate(key, what, 1, nil) }, "C12/free")
 	r.AddScenario(vres.Scenario{Name: "free-running-workload", Engine: "W", Evaluations: evals, Distinct: int64(outs.N()) + 1, Outcomes: outs.N(),
-		Rule:  "32 goroutines for 1.5 s per strategy over the real listener (20 clients, 2 fault switchers, 4 admin actors, 6 metrics/health readers) with every feature enabled; sampling complement, never the deciding step",
+		Rule:  "32 goroutines for 1.5 s per strategy over the real listener (20 clients, 2 fault switchers, 4 admin actors, 6 metrics/health readers) with every feature enabled, plus 18 slow oversized uploads through size_limit alone to a backend that answers early; sampling complement, never the deciding step",
 		Bound: "5 strategies", Exhaustive: false, Capped: "free-running: interleavings are those the Go runtime produced", Sample: map[string]interface{}{"race_reports": nr, "client_outcomes": outs.Map()},
 		Extra: map[string]interface{}{"wall_s": time.Since(start).Seconds()}})
 }
